@@ -428,6 +428,19 @@ func (r *runner) deliver(h int64, i int, raw []byte, kind, tag string) (*violati
 				if dR.Cmp(wantR) != 0 {
 					return &violation{"recipient-credit", cls, fmt.Sprintf("%s: recipient %s balance changed by %s, want %s (value %s, status %s %s)", where, recip.String(), dR, wantR, o.value, status, errTxt)}, d
 				}
+				// nobody else: the generated contracts pay nobody but their caller, so the balance records this transaction
+				// wrote are the sender's and the recipient's (what an earlier transaction left behind in the shared state
+				// DB must not surface here)
+				for _, k := range diffSnap(before, after) {
+					if !strings.HasPrefix(k, "b_") || !strings.HasSuffix(k, "_OLT") {
+						continue
+					}
+					who := strings.TrimSuffix(strings.TrimPrefix(k, "b_"), "_OLT")
+					if who != keys.Address(o.from).String() && who != recip.String() {
+						return &violation{"third-party-balance", cls, fmt.Sprintf("%s: the balance record of %s, neither sender (%s) nor recipient (%s) of this transaction, changed from %s to %s",
+							where, who, keys.Address(o.from).String(), recip.String(), before[k], after[k])}, d
+					}
+				}
 			}
 		}
 	} else if d.Code == 0 {
